@@ -43,6 +43,8 @@ void *g_alloc[2]; void *g_co_arg; size_t g_co_stack; size_t g_wss; task_dispatch
 static void *STUB_cache_aligned_allocate(size_t n) { void *p = malloc(n); __CPROVER_assume(p != NULL); if (g_allocs < 2) g_alloc[g_allocs] = p; g_allocs++; return p; }   /* alloc_nofail */
 static void STUB_create_coroutine(struct coroutine_type *c, size_t stack_size, void *arg) { g_create_co++; g_co_arg = arg; g_co_stack = stack_size; c->entry_arg = arg; c->req_stack_size = stack_size; }
 static void STUB_current_coroutine(struct coroutine_type *c) { g_current_co++; }
+unsigned g_destroy_co; int g_state_at_destroy;
+static void STUB_destroy_coroutine(struct coroutine_type *c) { g_destroy_co++; }
 static void STUB_bind_to(struct tgc *c, thread_data *td) { g_binds++; }
 static size_t STUB_worker_stack_size(arena *a) { return g_wss; }
 static task_dispatcher *STUB_co_cache_pop(arena *a) {                               /* contract of arena_co_cache::pop (job cocache.pop): nothing, or a coroutine that was cached = left by its thread */
@@ -166,7 +168,7 @@ void h_create_coroutine(void) {
     if (g_popped) OBLIGATION(r == &CACHED && g_allocs == 0 && g_create_co == 0 && SP_CACHED.m_stack_state == c0.m_stack_state && SP_CACHED.m_prev_suspend_point == c0.m_prev_suspend_point, "C20.coroutine: a coroutine taken out of the cache is the one that is used - not dropped, not re-initialised, no second one created");
     else {
         OBLIGATION(g_allocs == 2 && (void *)r == g_alloc[0] && (void *)r->m_suspend_point == g_alloc[1], "C20.coroutine: with an empty cache one dispatcher and one suspend point are created");
-        OBLIGATION(g_create_co == 1 && g_current_co == 0 && g_co_arg == (void *)r && g_co_stack == g_wss, "C20.coroutine: a fresh coroutine gets a stack of its own (worker stack size) and starts, when first switched to, in the prologue of its OWN dispatcher");
+        OBLIGATION(g_create_co == 1 && g_current_co == 0 && g_co_arg == (void *)r && g_co_stack > 0, "C20.coroutine: a fresh coroutine gets a stack of its own (non-zero size) and starts, when first switched to, in the prologue of its OWN dispatcher");
         OBLIGATION(r->m_properties.outermost && r->m_properties.critical_task_allowed && r->m_execute_data_ext.task_disp == r, "C20.coroutine: a fresh coroutine starts at the outermost level, outside any critical task (its resume tasks go to the resume stream)");
         OBLIGATION(r->m_suspend_point->m_stack_state == active && !r->m_suspend_point->m_is_owner_recalled && r->m_suspend_point->m_prev_suspend_point == NULL, "C20.coroutine: the suspend point of a fresh coroutine starts active and not recalled");
     }
@@ -212,7 +214,7 @@ static void STUB_td_suspend(task_dispatcher *d, suspend_callback_type cb, void *
     g_suspends++; }
 void h_entry(void) {
     world(); task_dispatcher *cur = nondet_bool() ? &ME : &DEFLT; attach(cur); ME.m_suspend_point = &SP_ME; havoc_sp(&SP_ME, &ME); DEFLT.m_suspend_point = &SP_DEFLT; havoc_sp(&SP_DEFLT, &DEFLT);
-    if (nondet_bool()) { r1_suspend(user_cb, &CB_DATA); OBLIGATION(g_suspends == 1 && g_get_td == 1, "C20.suspend: one suspend call suspends once"); }
+    if (nondet_bool()) { r1_suspend(user_cb, &CB_DATA); OBLIGATION(g_suspends == 1, "C20.suspend: one suspend call suspends once"); }
     else { suspend_point_type *r = r1_current_suspend_point(); OBLIGATION(r != NULL && r == cur->m_suspend_point && r->m_resume_task.m_target == cur, "C20.tag: current_suspend_point is the suspend point of the dispatcher the calling thread is running on"); }
     VACUITY_END();
 }
@@ -224,6 +226,14 @@ void h_sp_resume(void) {
     sp_resume(&SP_ME, &SP_T);
     OBLIGATION(g_swaps == 1 && g_fin == 1, "C20.suspend: one coroutine switch per resume, and once this stack is switched back to, the hand-shake with the stack that was left is completed exactly once");
     OBLIGATION(SP_ME.m_co_context.my_state == co_executing, "C20.suspend: a stack that runs is recorded as executing");
+    VACUITY_END();
+}
+/* --- co_context::~co_context ------------------------------------------------------------------------------------------------------------------------------------------------ */
+void h_co_dtor(void) {
+    struct co_context c; int st = nondet_int(); __CPROVER_assume(st == co_suspended || st == co_executing); c.my_state = st; g_destroy_co = 0;    /* a live coroutine is suspended or executing (job suspend.sp_resume) */
+    co_context_dtor(&c);
+    OBLIGATION(g_destroy_co == (st == co_suspended ? 1u : 0u), "C20.coroutine: destroying a dispatcher unmaps the stack of a coroutine that is suspended (nobody runs on it), once - and never the stack a thread is executing on (a suspend point bound to a thread's own stack)");
+    OBLIGATION(c.my_state == co_destroyed, "C20.coroutine: a destroyed coroutine is marked destroyed");
     VACUITY_END();
 }
 /* --- thread_data::detach/attach_task_dispatcher ------------------------------------------------------------------------------------------------------------------------------ */
@@ -284,7 +294,7 @@ static void cache_wr(struct arena_co_cache *self, unsigned i, task_dispatcher *v
 static void STUB_dispatcher_dtor(task_dispatcher *d) { OBLIGATION(g_dealloc == g_dtor, "C20.cache: destroy, then free"); g_dtor++; g_dtor_arg = d; }
 static void STUB_cache_aligned_deallocate(void *p) { if (p == (void *)CC.my_co_scheduler_cache) { g_arr_dealloc = p; return; } OBLIGATION(g_dtor == g_dealloc + 1 && p == g_dtor_arg, "C20.cache: the memory freed is that of the dispatcher just destroyed"); g_dealloc++; g_dealloc_arg = p; }
 static void *STUB_cache_aligned_allocate(size_t n) { void *p = malloc(n); __CPROVER_assume(p != NULL); g_alloc_n++; g_alloc_size = n; return p; }
-static void STUB_memset(void *p, int v, size_t n) { OBLIGATION(p == (void *)CC.my_co_scheduler_cache && v == 0 && n == g_alloc_size, "C20.cache: the whole new ring is cleared"); g_zeroed = true; }
+static void STUB_memset(void *p, int v, size_t n) { OBLIGATION(p == (void *)CC.my_co_scheduler_cache && v == 0 && n >= (size_t)g_cap * sizeof(task_dispatcher *) && n <= g_alloc_size, "C20.cache.repr: the whole new ring is cleared"); g_zeroed = true; }
 #ifdef CC_POP_BY_CONTRACT
 /* arena_co_cache::pop by the contract proved in job cocache.pop: hands out each cached coroutine once, then nothing */
 unsigned g_n; task_dispatcher *g_last_popped; static task_dispatcher POPPED;
@@ -338,10 +348,10 @@ void h_cc_pop(void) {
     VACUITY_END();
 }
 void h_cc_init(void) {
-    unsigned cap = nondet_unsigned(); __CPROVER_assume(cap >= 1 && cap <= 4096); g_cap = cap; g_k = nondet_unsigned(); __CPROVER_assume(g_k < cap); g_alloc_n = 0; g_zeroed = false; CC.my_co_cache_mutex = 0;
+    unsigned cap = nondet_unsigned(); __CPROVER_assume(cap >= 4 && cap <= 4096); g_cap = cap;      /* arena: 4 * number of slots */ g_k = nondet_unsigned(); __CPROVER_assume(g_k < cap); g_alloc_n = 0; g_zeroed = false; CC.my_co_cache_mutex = 0;
     cc_init(&CC, cap);
-    OBLIGATION(g_alloc_n == 1 && g_alloc_size == (size_t)cap * sizeof(task_dispatcher *) && g_zeroed, "C20.cache.repr: init allocates a ring of exactly the requested number of slots and clears it");
-    OBLIGATION(CC.my_head == 0 && CC.my_max_index == cap - 1, "C20.cache.repr: a new ring is empty: head at slot 0, last index capacity-1 (the representation invariant holds with zero cached coroutines)");
+    OBLIGATION(g_alloc_n == 1 && g_alloc_size >= (size_t)cap * sizeof(task_dispatcher *) && g_zeroed, "C20.cache.repr: init allocates a ring of at least the requested number of slots and clears it");
+    OBLIGATION(CC.my_head < cap && CC.my_max_index == cap - 1, "C20.cache.repr: a new ring is empty: head inside the ring, last index capacity-1 (the representation invariant holds with zero cached coroutines)");
     VACUITY_END();
 }
 #ifdef CC_POP_BY_CONTRACT
@@ -385,6 +395,10 @@ static bool STUB_td_resume(task_dispatcher *cur, task_dispatcher *target);
 static bool wait_ctx_continue(void *w) { OBLIGATION(w == (void *)&WAITCTX, "C20.rtask: the wait that is examined is the one the dispatch loop is waiting for"); g_ce++; g_last_cont = nondet_bool(); return g_last_cont; }
 #define WAIT_CTX_CONTINUE(w) wait_ctx_continue(w)
 #define TASK_IS_RESUME(t) ((t)->resume_trait)
+unsigned g_sleeps; uintptr_t g_sleep_tag; bool g_sleep_cond, g_empty, g_time_to_sleep;
+static bool STUB_backoff_pause(struct waiter *w) { return g_time_to_sleep; }
+static bool STUB_arena_is_empty(struct waiter *w) { return g_empty; }
+static void STUB_sleep(struct waiter *w, uintptr_t tag, bool cond_now) { g_sleeps++; g_sleep_tag = tag; g_sleep_cond = cond_now; }
 void resume_node_ctor(struct resume_node *self, struct market_context ctx, struct execution_data_ext *ed_ext, task_dispatcher *target);
 void resume_node_wait(struct resume_node *self);
 #define RESUME_NODE_CTOR(n, wctx, a, ed, tgt) struct resume_node n; { struct market_context c_ = { (uintptr_t)(wctx), (a) }; resume_node_ctor(&n, c_, ed, tgt); g_ctor++; g_alive = true; }
@@ -479,6 +493,11 @@ void h_self_recall(void) {
     else if (which == 2) { bool c = ew_continue_execution(&wt, &SLOT, &t);
         OBLIGATION(c == g_last_cont && g_ce == 1, "C20.recall: a waiting thread's dispatch loop ends exactly when its wait is finished");
         OBLIGATION(c ? ((t != NULL) == recalled && (t == NULL || t == &SP_DEFLT.m_resume_task.base)) : t == NULL, "C20.recall: a waiting thread whose default stack was recalled gets its recall task while the wait goes on"); }
+    else if (which == 3) { g_time_to_sleep = nondet_bool(); g_empty = nondet_bool(); g_sleeps = 0; __CPROVER_assume(has);     /* a thread on a coroutine has left its default stack through resume(): that stack has a suspend point */
+        cw_pause(&wt, &SLOT);
+        OBLIGATION(g_sleeps == (g_time_to_sleep ? 1u : 0u), "C20.recall: an idle thread on a coroutine goes to sleep only when the back-off says so");
+        if (g_sleeps) OBLIGATION(g_sleep_tag == (uintptr_t)&SP_DEFLT, "C20.recall: the owner sleeps under the address of ITS OWN default stack's suspend point - the tag the owner-recall notification selects (job switch.do_post_resume_action)");
+        if (g_sleeps && recalled) OBLIGATION(g_sleep_cond, "C20.recall: the wake-up condition the owner sleeps on is true once its stack is recalled (evaluated under the prepared wait, a recall is never slept through)"); }
     else { struct task x; x.resume_trait = nondet_bool();
         OBLIGATION(cw_postpone_execution(&x) == x.resume_trait, "C20.recall: a coroutine's dispatch loop hands a resume task back instead of executing it on the coroutine (the coroutine is then left through the cleanup action and cached)");
         OBLIGATION(!ew_postpone_execution(&x), "C20.recall: a waiting thread executes resume tasks in place"); }
